@@ -118,3 +118,70 @@ def shard_slices(n, k):
     k = max(1, min(k, n))
     step = (n + k - 1) // k
     return [(i, min(i + step, n)) for i in range(0, n, step)]
+
+
+# ---------------------------------------------------------------- connective formulas (C04, C05, C02, C16, C17)
+from .ast import C  # noqa: E402
+
+
+def conn_over(items, max_args, kinds=None, with_signed=False, n_leaf=0, need_compound=False):
+    """All connective ASTs (id None) whose arguments are 1..max_args distinct members of `items`.
+    need_compound: skip argument sets drawn only from the first n_leaf items."""
+    kinds = kinds or ('All', 'Any', 'AtLeast', 'AtMost', 'Xor', 'XNor', 'Imply', 'Not')
+    out = []
+    for r in range(1, max_args + 1):
+        for idx in itertools.combinations(range(len(items)), r):
+            if need_compound and all(i < n_leaf for i in idx):
+                continue
+            args = [items[i] for i in idx]
+            n = len(args)
+            if 'All' in kinds:
+                out.append(C('All', None, args))
+            if 'Any' in kinds:
+                out.append(C('Any', None, args))
+            if 'AtLeast' in kinds:
+                for k in range(1, n + 2):
+                    out.append(C('AtLeast', None, args, k))
+                if with_signed:
+                    for k in (-1, 0):
+                        out.append(C('AtLeast', None, args, ('sign', 1, k)))
+                    for k in range(-n - 1, 2):
+                        out.append(C('AtLeast', None, args, ('sign', -1, k)))
+            if 'AtMost' in kinds:
+                for k in range(0, n + 2):
+                    out.append(C('AtMost', None, args, k))
+            if 'Xor' in kinds:
+                out.append(C('Xor', None, args))
+            if 'ExactlyOne' in kinds:
+                out.append(C('ExactlyOne', None, args))
+            if 'XNor' in kinds:
+                out.append(C('XNor', None, args))
+            if 'Imply' in kinds and n == 2:
+                out.append(C('Imply', None, args))
+                out.append(C('Imply', None, args[::-1]))
+            if 'Not' in kinds and n == 1:
+                out.append(C('Not', None, args))
+    return out
+
+
+def conn_d1(leaf_ids, max_args=2, **kw):
+    return conn_over([leaf(i) for i in leaf_ids], max_args, **kw)
+
+
+def conn_d2(leaf_ids, max_args=2, inner_args=2, **kw):
+    lv = [leaf(i) for i in leaf_ids]
+    d1 = conn_over(lv, inner_args, **kw)
+    return conn_over(lv + d1, max_args, n_leaf=len(lv), need_compound=True, **kw)
+
+
+def name_ids(ast, policy, counter=None, top=True):
+    """Give connective nodes explicit ids ('explicit': all, 'root': top only, 'generated': none).  Not() has no id slot."""
+    if ast[0] != 'C':
+        return ast
+    if counter is None:
+        counter = itertools.count()
+    _, kind, _i, args, extra = ast
+    i = None
+    if kind != 'Not' and (policy == 'explicit' or (policy == 'root' and top)):
+        i = "PQRSTUVWXYZ"[next(counter)]
+    return C(kind, i, [name_ids(a, policy, counter, False) for a in args], extra)
